@@ -63,6 +63,11 @@ func VerifH_C14_server() {
 	recv := vInt()
 	vAssume(recv >= 0 && recv <= sc.maxRequestBodySize)
 	strm.recvBody = recv
+	// whether the request declared a content-length (within the limit, or it
+	// would have been refused at the headers) makes no difference to the limit
+	strm.hasContentLength = vBool()
+	strm.contentLength = vInt()
+	vAssume(strm.contentLength >= 0 && strm.contentLength <= sc.maxRequestBodySize)
 	length := vInt()
 	vAssume(length >= 0 && length <= 16384 && int32(length) <= cur)
 	dlen := vInt()
